@@ -304,6 +304,18 @@ fn deprecated_writes(g: &mut Grid) {
                     drop(a)
                 });
             } else {
+                // length 0 is a boundary of its own: there is no slot to write, the gate must still hold
+                for empty_len in [0usize] {
+                    let mut e: Arc<[MaybeUninit<u64>]> = cap(|| Arc::new_uninit_slice(empty_len));
+                    let keep_e = if shared { Some(cap(|| e.clone())) } else { None };
+                    let r = catch(|| {
+                        let _ = e.as_mut_slice();
+                    });
+                    if r.is_ok() == shared {
+                        g.fail(if shared { "shared-write-allowed" } else { "sole-write-refused" }, &format!("{} (length 0)", case), format!("as_mut_slice on an empty slice returned={} with shared={}", r.is_ok(), shared));
+                    }
+                    cap(|| drop((e, keep_e)));
+                }
                 let mut a: Arc<[MaybeUninit<u64>]> = cap(|| Arc::new_uninit_slice(3));
                 cap(|| {
                     for s in Arc::get_mut(&mut a).unwrap().iter_mut() {
